@@ -15,7 +15,7 @@ const char* const kOpNames[OK_N] = {"Q", "PARSE", "ADDCD", "NIST_NAME", "NIST_ID
                                     "DEPRECATED", "ERR_NEW", "MISC"};
 const char* const kFileMutNames[FM_N] = {"none", "no_ucell", "dup_ucell", "bad_ucell", "no_L", "short_atom_row", "nonnumeric_atom_row",
                                          "long_line", "no_EOF_marker", "truncated_text", "random_bytes", "empty", "long_name", "bad_S_line",
-                                         "extra_columns", "crlf", "no_atoms", "no_final_newline"};
+                                         "extra_columns", "crlf", "no_atoms", "no_final_newline", "number_syntax"};
 
 #define XQ_NAMES
 #include "gen_queries.inc"
@@ -472,13 +472,32 @@ bool CrystalData::volume_comparable() const {
   return rad > 0.009 && isfinite(v) && v > 0 && v < 1e100;
 }
 
-static void fmt_num(std::string& out, double v) {
+static void fmt_num(std::string& out, double v, Rng* style = nullptr) {
   // short decimal text (lines of the dialect must stay below 100 characters); a file is bytes, so the
   // decimal point is '.' whatever the process locale is
   char b[64];
   snprintf(b, sizeof b, "%.12g", v);
   for (char* p = b; *p; ++p) if (*p == ',') *p = '.';
-  out += b;
+  std::string t = b;
+  if (style && t.find_first_of("eEn") == std::string::npos) {
+    // other spellings of exactly the same decimal value (strtod / %lf give the same double for all of them)
+    switch (style->below(8)) {
+      case 0: if (v >= 0 && t[0] != '-') t = "+" + t; break;
+      case 1: t += "e0"; break;
+      case 2: t += "E+00"; break;
+      case 3: if (t.size() > 2 && t[0] == '0' && t[1] == '.') t = t.substr(1); break;
+      case 4: if (t.find('.') == std::string::npos) t += "."; t += "00"; break;
+      case 5: if (t[0] != '-') t = "0" + t; break;
+      case 6: {  // shift the decimal point by one and compensate in the exponent
+        size_t dot = t.find('.');
+        if (dot == std::string::npos) { t += "0e-1"; break; }
+        if (dot + 1 < t.size()) { std::swap(t[dot], t[dot + 1]); t += "e-1"; if (t[t.find('.') + 1] == 'e') t.insert(t.find('.') + 1, "0"); }
+        break;
+      }
+      default: break;
+    }
+  }
+  out += t;
 }
 
 // Render a crystal file in the dialect of data/Crystals.dat.  *wellformed is set when the file follows the
@@ -488,6 +507,9 @@ std::string render_crystal_file(const FileSpec& fs, bool* wellformed, std::vecto
   if (layout_only) *layout_only = false;
   bool layout = false;   // the text deviates from the shipped dialect only in ways that leave its content (names, cells, atoms) intact
   Rng r(fs.mseed * 31 + 5);
+  Rng rstyle(fs.mseed * 131 + 7);
+  Rng* style = fs.mut == FM_NUM_SYNTAX ? &rstyle : nullptr;
+  if (style) layout = true;
   std::string t;
   bool wf = true;
   if (contents) contents->clear();
@@ -518,7 +540,7 @@ std::string render_crystal_file(const FileSpec& fs, bool* wellformed, std::vecto
     if (!(hit && fs.mut == FM_NO_UCELL)) {
       std::string u = "#UCELL ";
       if (hit && fs.mut == FM_BAD_UCELL) { u += "4.2 abc 3"; wf = false; }
-      else for (int k = 0; k < 6; k++) { fmt_num(u, d.cell[k]); u += k < 5 ? " " : ""; }
+      else for (int k = 0; k < 6; k++) { fmt_num(u, d.cell[k], style); u += k < 5 ? " " : ""; }
       t += u; t += nl;
       if (hit && fs.mut == FM_DUP_UCELL) { t += u; t += nl; wf = false; }
     } else wf = false;
@@ -537,7 +559,7 @@ std::string render_crystal_file(const FileSpec& fs, bool* wellformed, std::vecto
       else if (bad && fs.mut == FM_NONNUM_ATOM) { snprintf(b, sizeof b, "%d one 0.5 0.5 0.5", a.Z); row = b; wf = false; }
       else {
         snprintf(b, sizeof b, "%d ", a.Z); row = b;
-        fmt_num(row, a.frac); row += " "; fmt_num(row, a.x); row += "  "; fmt_num(row, a.y); row += "  "; fmt_num(row, a.z);
+        fmt_num(row, a.frac, style); row += " "; fmt_num(row, a.x, style); row += "  "; fmt_num(row, a.y, style); row += "  "; fmt_num(row, a.z, style);
         if (bad && fs.mut == FM_EXTRA_COLS) { row += " 0.25 extra"; wf = false; }
       }
       t += row; t += nl;
